@@ -360,24 +360,19 @@ func (tp *TableParser) processVerticalMerges(table *ParsedTable) {
 		for cellIdx := range row.Cells {
 			cell := &table.Rows[rowIdx].Cells[cellIdx]
 
-			// Check if this cell starts a merge
-			if !cell.IsMergedContinuation && mergeStarts[colIdx] == -1 {
-				// Check if vMerge restart
-				// We need to look at the raw vMerge value
-				// For now, assume any cell that's not a continuation could start a merge
-				mergeStarts[colIdx] = rowIdx
-			}
-
-			if cell.IsMergedContinuation && mergeStarts[colIdx] >= 0 {
-				// Increment the row span of the merge start cell
-				startRow := mergeStarts[colIdx]
-				startColIdx := tp.findCellAtColumn(table.Rows[startRow], colIdx)
-				if startColIdx >= 0 {
-					table.Rows[startRow].Cells[startColIdx].RowSpan++
+			if cell.IsMergedContinuation {
+				if mergeStarts[colIdx] >= 0 {
+					// Increment the row span of the merge start cell
+					startRow := mergeStarts[colIdx]
+					startColIdx := tp.findCellAtColumn(table.Rows[startRow], colIdx)
+					if startColIdx >= 0 {
+						table.Rows[startRow].Cells[startColIdx].RowSpan++
+					}
 				}
-			} else if !cell.IsMergedContinuation {
-				// Reset merge tracking for this column
-				mergeStarts[colIdx] = -1
+			} else {
+				// Any cell that is not a continuation can start a merge: the
+				// continuation cells below it, if any, extend its row span
+				mergeStarts[colIdx] = rowIdx
 			}
 
 			colIdx += cell.ColSpan
